@@ -499,7 +499,7 @@ def obligations(tier):
         for n in ((0, 1, 3) if quick else (0, 1, 2, 3, 4, 6)):
             obs.append(Streams(entry=entry, label="flat", n=n))
     for entry in ("load_binary", "load_text", "loads_bytes"):
-        for n in ((2, 3) if quick else (1, 2, 3, 4)):
+        for n in ((2, 3) if quick else (1, 2, 3)):
             obs.append(Streams(entry=entry, label="flat", n=n, fused=True))
     for d in ("PVL", "ODL", "PDS3", "ISIS"):
         for mode in ("text", "binary", "textfile"):
